@@ -1,5 +1,6 @@
 import Mrpro.Model.MoveData
 import Mrpro.Lemmas.MoveDataL
+import Mrpro.Lemmas.MoveApplyL
 /-! # C18 — moving or converting data preserves content, dtype kind and aliasing rules -/
 namespace C18
 open M
@@ -44,5 +45,36 @@ theorem copy_fresh (fresh : Nat → Nat) (target : Option DType) (o : OTree)
 
 /-- without copy and without a dtype change nothing is converted: the result shares every tensor -/
 theorem noop_shares (fresh : Nat → Nat) (o : OTree) : (o.to fresh false none).leaves = o.leaves := M.noop_shares fresh o
+
+/-! ### `apply(function)` = `clone()` followed by `apply_(function)` -/
+
+/-- structure and field order are preserved; each result leaf is what the function returns for the clone of the source leaf -/
+theorem apply_leaves (fresh g : Nat → Nat) (h : M.DType → M.DType) (o : M.OTree) :
+    (o.apply fresh g h).leaves = o.leaves.map (fun p => (g (fresh p.1), h p.2)) := M.apply_leaves fresh g h o
+
+/-- **the result never contains a tensor object of the source, whatever the function does with what it is given** (returns it,
+modifies it in place, or returns something new) — so the source is never modified through the result -/
+theorem apply_no_share (fresh g : Nat → Nat) (h : M.DType → M.DType) (o : M.OTree) (S : List Nat)
+    (hsrc : ∀ p ∈ o.leaves, p.1 ∈ S) (hfresh : ∀ i ∈ S, fresh i ∉ S) (hg : ∀ j, j ∉ S → g j ∉ S) :
+    ∀ q ∈ (o.apply fresh g h).leaves, q.1 ∉ S := M.apply_no_share fresh g h o S hsrc hfresh hg
+
+/-- fields that were one object stay one object; different objects stay different when the function does not merge objects -/
+theorem apply_alias_kept (fresh g : Nat → Nat) (h : M.DType → M.DType) (o : M.OTree) (i j : Nat)
+    (hi : i < o.leaves.length) (hj : j < o.leaves.length) (heq : (o.leaves[i]'hi).1 = (o.leaves[j]'hj).1) :
+    ((o.apply fresh g h).leaves[i]'(by rw [M.apply_leaves_length]; exact hi)).1
+      = ((o.apply fresh g h).leaves[j]'(by rw [M.apply_leaves_length]; exact hj)).1 := M.apply_alias_kept fresh g h o i j hi hj heq
+theorem apply_alias_separate (fresh g : Nat → Nat) (h : M.DType → M.DType) (o : M.OTree)
+    (hf : Function.Injective fresh) (hgi : Function.Injective g) (i j : Nat)
+    (hi : i < o.leaves.length) (hj : j < o.leaves.length) (hne : (o.leaves[i]'hi).1 ≠ (o.leaves[j]'hj).1) :
+    ((o.apply fresh g h).leaves[i]'(by rw [M.apply_leaves_length]; exact hi)).1
+      ≠ ((o.apply fresh g h).leaves[j]'(by rw [M.apply_leaves_length]; exact hj)).1 := M.apply_alias_separate fresh g h o hf hgi i j hi hj hne
+
+/-- with the identity function `apply` is `clone()` -/
+theorem apply_id_is_clone (fresh : Nat → Nat) (o : M.OTree) :
+    (o.apply fresh id id).leaves = (o.to fresh true none).leaves := M.apply_id_eq_clone fresh o
+
+/-- witness: without the clone (the function is handed the source's own objects) an in-place function returns the source's tensors -/
+theorem apply_without_clone_shares :
+    ∃ (o : M.OTree) (S : List Nat), (∀ p ∈ o.leaves, p.1 ∈ S) ∧ ∃ q ∈ (o.apply id id id).leaves, q.1 ∈ S := M.apply_without_clone_shares
 
 end C18
